@@ -219,6 +219,12 @@ func (e *specEnv) sortOfName(n string) (string, types.Type) {
 }
 
 func (e *specEnv) resolveType(n string) types.Type {
+	if strings.HasPrefix(n, "[]") {
+		if el := e.resolveType(n[2:]); el != nil {
+			return types.NewSlice(el)
+		}
+		return nil
+	}
 	ptr := strings.HasPrefix(n, "*")
 	base := strings.TrimPrefix(n, "*")
 	var t types.Type
